@@ -224,6 +224,233 @@ Print Assumptions C07_ttx_to_srt.
 Example C07_ttx_plain_example : ttx_plain_ok ex_plain_ttx /\ srt_plain_ok (ptrunc 1000000 ex_plain_ttx) /\ length ex_plain_ttx = 3%nat.
 Proof. split; [exact ex_plain_ttx_ok | split; [exact ex_plain_ttx_srt_ok | reflexivity]]. Qed.
 
+(* ---- styled sources into SubRip (Proofs/ConvToSrtStyled.v) ----
+   The SubRip writer looks at times, run texts and the SRT attributes only; no STL, TTML or SSA reading path sets those
+   (propagateSTLAttributes, propagateTTMLAttributes set WebVTT settings; propagateSSAAttributes is empty).  For styled
+   sources of these formats the library's conversion into SubRip is therefore the conversion through the plain view --
+   byte comparison on styled generated sources: groups plain.styled.stl->srt (STL files with in-row style changes, colours,
+   boxing, justification, positions; harness/conv_stl_srt.go), plain.styled.ttml->srt, plain.styled.ssa->srt -- and for
+   EVERY document the source reader accepts whose text SubRip can carry, the destination reads back as the source's cues in
+   order, times truncated to the millisecond, the same text per line. *)
+From Astisub Require Import Proofs.ConvToSrtStyled.
+Theorem C07_stl_to_srt_styled : forall data p, stl_dec data = Ok p -> srt_plain_ok p ->
+  exists dst, convert_plain stl_dec srt_enc data = Ok dst /\ srt_dec dst = Ok (ptrunc 1000000 p).
+Proof. exact stl_to_srt_styled. Qed.
+Print Assumptions C07_stl_to_srt_styled.
+Theorem C07_ttml_to_srt_styled : forall data p, ttml_dec2 data = Ok p -> srt_plain_ok p ->
+  exists dst, convert_plain ttml_dec2 srt_enc data = Ok dst /\ srt_dec dst = Ok (ptrunc 1000000 p).
+Proof. exact ttml_to_srt_styled. Qed.
+Print Assumptions C07_ttml_to_srt_styled.
+Theorem C07_ssa_to_srt_styled : forall data p, ssa_dec data = Ok p -> srt_plain_ok p ->
+  exists dst, convert_plain ssa_dec srt_enc data = Ok dst /\ srt_dec dst = Ok (ptrunc 1000000 p).
+Proof. exact ssa_to_srt_styled. Qed.
+Print Assumptions C07_ssa_to_srt_styled.
+(* STYLED TTML sources converted to SSA/ASS (Model/ConvTtmlSsa.v; Proofs/ConvTtmlSsaProofs.v).  conv_ttml_ssa is what
+   WriteToSSA sees of the Subtitles value ReadFromTTML built: the title as the only script info, EVERY style of the TTML
+   styles map (referenced or not; parent links, TTML attributes and regions do not travel) as a style row holding the name
+   only, per cue the times, the ID of its style in the Style column, and per line the texts of its spans put together.
+   The library's destination bytes are compared with convert_ttml_ssa on every generated styled TTML document (suite
+   convttmlssa).
+   C07_ttml_to_ssa_styled: for every source the TTML reader model accepts (XML parser model, then the tree reader) whose
+   conversion is representable in SSA, and every order in which the runtime may range over the styles map (reorder: any
+   permutation of the keys): the conversion succeeds and the destination read back has the same cues in the same order,
+   times truncated to the centisecond, per line the same text (exact equality: the SSA writer inserts nothing between the
+   runs of a line).  The representability hypothesis is stated on conv_ttml_ssa_nf d, the same document with the runs of
+   every line put together (written to the same bytes; the shape the SSA reader returns); it is image_repr of C04
+   (Proofs/SsaRewrite.v: doc_repr without the styles map being listed in sorted order) and amounts to: at least one cue;
+   every style ID non-empty, free of commas and line terminators, unchanged by TrimSpace; the title on one line and
+   unchanged by TrimSpace; times in 0 .. max Duration; a cue's style reference is not the reserved spelling *Default;
+   every line text free of braces and of the two-byte sequences \n and \N and unchanged by TrimSpace; the cue text free
+   of line terminators.  ttml_ssa_okb decides it (C07_ttml_to_ssa_okb); each condition is needed (computed
+   counter-examples C07_ttml_to_ssa_needs; what the library does on them: notes/C07-ttml-ssa.md).
+   C07_ttml_to_ssa_styled_written: the same starting from a representable TTML DOCUMENT (repr_doc of C03) and the bytes
+   the TTML writer emits for it, any indent: times truncated to the millisecond, then to the centisecond.
+   C07_ttml_to_ssa_order: the destination bytes do not depend on the iteration order of the styles map. *)
+From Astisub Require Import Kit.Xml Kit.XmlParse2 Model.Ttml Model.Ssa Model.ConvTtmlSsa Proofs.SsaRewrite Proofs.TtmlDocSpec Proofs.ConvTtmlSsaProofs.
+From Coq Require Import Permutation.
+Theorem C07_ttml_to_ssa_styled : forall src root d reorder,
+  xml_parse2 src = Some root -> read_ttml root = Ok d ->
+  image_repr (conv_ttml_ssa_nf d) -> Permutation (reorder (tsa_keys d)) (tsa_keys d) ->
+  exists dst d', convert_ttml_ssa_by reorder src = Ok dst /\ read_ssa dst = Ok d' /\
+                 ssa_to_plain d' = ptrunc 10000000 (ttml_to_plain d).
+Proof. exact ttml_to_ssa_styled. Qed.
+Print Assumptions C07_ttml_to_ssa_styled.
+(* document level: any TTML document value, any enumeration of the keys of its styles map *)
+Theorem C07_ttml_to_ssa_styled_doc : forall d order,
+  image_repr (conv_ttml_ssa_nf d) -> Permutation order (tsa_keys d) ->
+  exists dst d', write_ssa (conv_ttml_ssa d) order = Ok dst /\ read_ssa dst = Ok d' /\
+                 ssa_to_plain d' = ptrunc 10000000 (ttml_to_plain d).
+Proof. exact ttml_to_ssa_doc. Qed.
+Print Assumptions C07_ttml_to_ssa_styled_doc.
+Theorem C07_ttml_to_ssa_styled_written : forall d ind reorder,
+  repr_doc d = true -> indent_ok ind = true ->
+  image_repr (conv_ttml_ssa_nf (written_value d)) -> Permutation (reorder (tsa_keys d)) (tsa_keys d) ->
+  exists src dst d', write_ttml_bytes ind d = Ok src /\ convert_ttml_ssa_by reorder src = Ok dst /\ read_ssa dst = Ok d' /\
+                     ssa_to_plain d' = ptrunc 10000000 (ptrunc 1000000 (ttml_to_plain d)).
+Proof. exact ttml_to_ssa_written. Qed.
+Print Assumptions C07_ttml_to_ssa_styled_written.
+(* through the two plain-view decoders: what C07_any_source compares, for the conversion the library really performs *)
+Theorem C07_ttml_to_ssa_styled_plain : forall src p d reorder,
+  read_ttml_bytes2 src = Ok d -> ttml_to_plain d = p ->
+  image_repr (conv_ttml_ssa_nf d) -> Permutation (reorder (tsa_keys d)) (tsa_keys d) ->
+  exists dst, ttml_dec2 src = Ok p /\ convert_ttml_ssa_by reorder src = Ok dst /\ ssa_dec dst = Ok (ptrunc ssa_unit p).
+Proof. exact ttml_to_ssa_styled_plain. Qed.
+Print Assumptions C07_ttml_to_ssa_styled_plain.
+Theorem C07_ttml_to_ssa_order : forall reorder src,
+  (forall l, Permutation (reorder l) l) -> convert_ttml_ssa_by reorder src = convert_ttml_ssa src.
+Proof. exact convert_ttml_ssa_order_independent. Qed.
+Print Assumptions C07_ttml_to_ssa_order.
+Theorem C07_ttml_to_ssa_same_bytes : forall d order, write_ssa (conv_ttml_ssa d) order = write_ssa (conv_ttml_ssa_nf d) order.
+Proof. exact tsa_write_nf. Qed.
+Print Assumptions C07_ttml_to_ssa_same_bytes.
+Theorem C07_ttml_to_ssa_okb : forall d, ttml_ssa_okb d = true -> image_repr (conv_ttml_ssa_nf d).
+Proof. exact ttml_ssa_okb_ok. Qed.
+Print Assumptions C07_ttml_to_ssa_okb.
+(* non-vacuity: a document with a title, three styles (one referenced by a cue, one by a span only, one a parent), a
+   region, two cues, a two-line cue whose first line has two spans, times off both grids: it is a representable TTML
+   document, its conversion satisfies the hypothesis (also in the sorted form doc_reprb of C04), the conversion is
+   computed (styles map ranged over in reverse order), and the written-bytes theorem applies to it *)
+Example C07_ttml_to_ssa_example :
+  repr_doc tsa_ex = true /\ ttml_ssa_okb (written_value tsa_ex) = true /\
+  Proofs.SsaRepr.doc_reprb (conv_ttml_ssa_nf (written_value tsa_ex)) = true /\
+  tsa_trip tsa_ex = Ok [(1000000000%Z, 2000000000%Z, [[72;101;108;108;111;44;32;119;111;114;108;100]; [115;101;99;111;110;100;32;108;105;110;101]]);
+                        (3000000000%Z, 4990000000%Z, [[112;108;97;105;110]])]%N.
+Proof. split; [exact tsa_ex_ttml_repr|]. split; [exact (proj1 (proj2 tsa_ex_ok))|]. split; [exact (proj2 (proj2 tsa_ex_ok)) | exact tsa_ex_trip]. Qed.
+Example C07_ttml_to_ssa_example_roundtrip :
+  exists src dst d', write_ttml_bytes ttml_default_indent tsa_ex = Ok src /\ convert_ttml_ssa_by (@rev str) src = Ok dst /\
+                     read_ssa dst = Ok d' /\ ssa_to_plain d' = ptrunc ssa_unit (ptrunc 1000000 (ttml_to_plain tsa_ex)).
+Proof. exact tsa_ex_roundtrip. Qed.
+(* each representability condition is needed (one cue, lines given as lists of span texts): a brace pair (a{b}c reads
+   back as ac), \N inside a line (two lines), blanks at the ends of a line (trimmed), a carriage return (rest of the
+   text lost), a comma in a style ID (the destination cannot be read), line terminators in the title (a cue injected) *)
+Example C07_ttml_to_ssa_needs :
+  tsa_cx_lines (tsa_trip (tsa_cx [] [] None [[[97;123;98;125;99]]])) = Some [[97;99]] /\
+  tsa_cx_lines (tsa_trip (tsa_cx [] [] None [[[97;92;78;98]]])) = Some [[97]; [98]] /\
+  tsa_cx_lines (tsa_trip (tsa_cx [] [] None [[[32;97;32]]; [[98;32]]])) = Some [[97]; [98]] /\
+  tsa_cx_lines (tsa_trip (tsa_cx [] [] None [[[97;13;98]]])) = Some [[97]] /\
+  tsa_trip (tsa_cx [] [[97;44;98]] (Some [97;44;98]) [[[120]]]) = Err EParse /\
+  tsa_trip (tsa_cx tsa_cx_title [] None [[[120]]]) = Ok [(0%Z, 0%Z, [[98]]); (1000000000%Z, 2000000000%Z, [[120]])].
+Proof.
+  split; [exact (proj1 tsa_needs_no_brace)|]. split; [exact (proj1 tsa_needs_no_break_N)|].
+  split; [exact (proj1 tsa_needs_trimmed_lines)|]. split; [exact (proj1 tsa_needs_no_line_terminator)|].
+  split; [exact (proj1 tsa_needs_no_comma_in_id) | exact (proj1 tsa_needs_title_one_line)].
+Qed.
+(* STYLED conversions between SSA/ASS and WebVTT (the library's conversion is NOT the one through the plain view for these
+   two pairs: the speaker name travels).  Model/ConvSsaVtt.v and Model/ConvVttSsa.v transcribe, from the source reader
+   and the destination writer, what reaches the writer; convert_ssa_vtt / convert_vtt_ssa are byte-compared with the library on
+   every generated styled source and on hand-rendered sources with hard texts (suites convssavtt, convvttssa).
+   SSA/ASS -> WebVTT: one numbered cue per Dialogue event, every line prefixed by a voice tag carrying the Name column, the run
+   texts (escaped) one after the other; override blocks, styles, script info, layer, margins, effect are not written.
+   WebVTT -> SSA/ASS: one Dialogue row per cue, Name = the last speaker named in the cue, Text = the run texts of each line put
+   together, lines joined by backslash-n; a STYLE block becomes a one-row styles section; tags, classes, inline timestamps,
+   settings, regions, comments, the timestamp map are not written.
+   Statements: for EVERY representable source document (doc_repr / repr_vdoc: the hypotheses of C04_write_read and
+   C02_write_read) whose conversion - with the runs of each line put together, which is the document the destination bytes
+   denote: conv_ssa_vtt_m, conv_vtt_ssa_m - is representable in the destination, the written source converts without error
+   and the destination reads back, through the plain view, as the source's cues: same number, same order, times truncated to
+   the source's and then the destination's unit, per line exactly the same text (no white-space normalisation).
+   ssavtt_join_ok: no run text ends with the byte 0xC2 (true of every valid UTF-8 text; the WebVTT writer escapes run by run).
+   What the hypothesis on the conversion excludes, each with a computed counter-example (Proofs/ConvSsaVttProofs.v
+   ssa_to_vtt_needs_..., Proofs/ConvVttSsaProofs.v vtt_to_ssa_needs_...; replayed on the library, notes/C07-ssa-vtt.md):
+   towards WebVTT - empty lines, white space at the ends of a line, lines that WebVTT reads as another kind of line (NOTE,
+   STYLE, Region:, X-TIMESTAMP-MAP prefixes, the arrow), speaker names with '>' '&' or blanks at their ends; towards SSA -
+   braces, the sequences backslash-n / backslash-N, white space at the ends of a line, cues without lines, speaker names
+   with a comma (the hypothesis excludes them; since the library fix of finding F1 the writer emits the comma as a semicolon
+   and the text survives: vtt_to_ssa_comma_in_voice_readable). *)
+From Astisub Require Import Model.Ssa Model.ConvSsaVtt Model.ConvVttSsa Proofs.SsaDoc Proofs.ConvSsaVttProofs Proofs.ConvVttSsaProofs.
+Theorem C07_ssa_to_vtt_styled : forall d : adoc,
+  doc_repr d -> ssavtt_join_ok d = true -> repr_vdoc (conv_ssa_vtt_m (canon_doc d)) (style_keys d) [] ->
+  exists ssa vtt d', write_ssa d (style_keys d) = Ok ssa /\ convert_ssa_vtt ssa = Ok vtt /\ read_vtt vtt = Ok d' /\
+                     vtt_to_plain d' = ptrunc 1000000 (ptrunc ssa_unit (ssa_to_plain d)).
+Proof. exact ssa_to_vtt_styled. Qed.
+Print Assumptions C07_ssa_to_vtt_styled.
+(* the conversion's bytes are those of the merged form (this is what ties conv_ssa_vtt_m to the library's conversion) *)
+Theorem C07_ssa_to_vtt_merged_bytes : forall d so ro, ssavtt_join_ok d = true ->
+  write_vtt (conv_ssa_vtt d) so ro = write_vtt (conv_ssa_vtt_m d) so ro.
+Proof. exact write_conv_ssa_vtt_m. Qed.
+Print Assumptions C07_ssa_to_vtt_merged_bytes.
+Theorem C07_vtt_to_ssa_styled : forall d so ro,
+  repr_vdoc d so ro -> doc_repr (conv_vtt_ssa_m (ndoc d so ro)) ->
+  exists vtt ssa d', write_vtt d so ro = Ok vtt /\ convert_vtt_ssa vtt = Ok ssa /\ read_ssa ssa = Ok d' /\
+                     ssa_to_plain d' = ptrunc ssa_unit (ptrunc 1000000 (vtt_to_plain d)).
+Proof. exact vtt_to_ssa_styled. Qed.
+Print Assumptions C07_vtt_to_ssa_styled.
+Theorem C07_vtt_to_ssa_merged_bytes : forall d order,
+  write_ssa (conv_vtt_ssa d) order = write_ssa (conv_vtt_ssa_m d) order.
+Proof. exact write_conv_vtt_ssa_m. Qed.
+Print Assumptions C07_vtt_to_ssa_merged_bytes.
+(* non-vacuity: a v4.00+ script with a style, script info, two speakers, override blocks in the middle and at both ends of a
+   line, '&' and '<' in the text, times off the grid; a WebVTT file with timestamp map, STYLE block, region, comment, settings,
+   two speakers in one cue, a tag, a class, an inline timestamp, a comma in the text; ex_sv_expected / ex_vs_expected (Proofs/Conv...Proofs.v)
+   spell out the plain views that come back: 1.23 s - 2.5 s with the lines  Hello brave new world & <co>  and  second line , then
+   3 s - 4 s with  x > y ; resp. 1 s - 2.5 s with  Hello brave new world, & more  and  second line , then 3 s - 4 s with  x > y *)
+Example C07_ssa_to_vtt_styled_example :
+  doc_repr ex_sv_doc /\ ssavtt_join_ok ex_sv_doc = true /\ repr_vdoc (conv_ssa_vtt_m (canon_doc ex_sv_doc)) (style_keys ex_sv_doc) [] /\
+  ptrunc 1000000 (ptrunc ssa_unit (ssa_to_plain ex_sv_doc)) = ex_sv_expected /\ length ex_sv_expected = 2%nat.
+Proof. split; [exact ex_sv_repr | split; [exact ex_sv_join | split; [exact ex_sv_conv_repr | split; [exact ex_sv_plain | reflexivity]]]]. Qed.
+Example C07_vtt_to_ssa_styled_example :
+  repr_vdoc ex_vs_doc ex_vs_so ex_vs_ro /\ doc_repr (conv_vtt_ssa_m (ndoc ex_vs_doc ex_vs_so ex_vs_ro)) /\
+  ptrunc ssa_unit (ptrunc 1000000 (vtt_to_plain ex_vs_doc)) = ex_vs_expected /\ length ex_vs_expected = 2%nat.
+Proof. split; [exact ex_vs_repr | split; [exact ex_vs_conv_repr | split; [exact ex_vs_plain | reflexivity]]]. Qed.
+(* Styled TTML sources -> WebVTT (Model/ConvTtmlVtt.v; the library's bytes are compared with convert_ttml_vtt on every
+   generated styled TTML document, suite convttmlvtt).  What travels, transcribed from ReadFromTTML /
+   propagateTTMLAttributes / WriteToWebVTT: every region (origin -> regionanchor 0%,0%, viewportanchor, scroll up;
+   extent -> width, lines = height / 5 in Go's integer arithmetic) with the one-level fall-back to the style it names;
+   per cue align (textAlign), line / position (origin, swapped under a tb writing mode), region, size (extent) from the
+   paragraph's own attributes with the one-level fall-back to its style; per span the class of its own tts:color when it is
+   one of the five colours the writer knows; the text.
+   Statement: for EVERY document value d of the TTML reader model whose conversion is representable in WebVTT, the
+   conversion succeeds, and the destination read back has the same cues in the same order, times truncated to the
+   millisecond, per line the run texts put together - exact equality, no white-space normalisation:
+   vtt_to_plain d' = ptrunc 1000000 (ttml_to_plain d).
+   Representability is repr_vdoc of C02 applied to tv_norm (conv_ttml_vtt d): the converted document with its lines in the
+   WebVTT writer's normal form - a span of one of the five colours as a run inside the class tag c.NAME, adjacent spans
+   without such a colour as ONE run (the WebVTT reader cannot tell them apart).  tv_norm (conv_ttml_vtt d) is written byte
+   for byte like conv_ttml_vtt d (lemma tv_norm_bytes).  repr_vdoc then asks: times in [0, max_int64]; every line non-empty,
+   valid UTF-8 without NUL, without white space at its ends, not looking like another kind of WebVTT line (NOTE, STYLE,
+   Region:, an arrow, digits only); settings and region attributes without white space, ':' resp. '=' ; region identifiers
+   alike.  Two shapes of lines are outside it although the library converts them correctly (harness oracle): two ADJACENT
+   spans carrying the SAME one of the five colours (the writer closes and reopens the class tag, which is not in the
+   image of the WebVTT writer's normal form), and an uncoloured span whose text begins with the byte 0xA0 right after
+   another uncoloured span.
+   _file: from any source bytes the TTML reader model accepts (XML parser model for hand-written documents);
+   _written: from any representable TTML document value written by the library's TTML writer with any white-space indent.
+   Non-vacuity: C07_ttml_to_vtt_styled_example (source bytes with two regions with origin/extent, one of them falling back
+   to a style and with a tb writing mode, a style with textAlign referenced by a paragraph, a coloured span, bare text, two
+   adjacent uncoloured spans, a line break; the model's conversion of these bytes equals the bytes the library wrote). *)
+From Astisub Require Import Model.Ttml Model.ConvTtmlVtt Proofs.TtmlDocSpec Proofs.ConvTtmlVttProofs.
+Theorem C07_ttml_to_vtt_styled : forall d so ro,
+  repr_vdoc (tv_norm (conv_ttml_vtt d)) so ro ->
+  exists dst d', write_vtt (conv_ttml_vtt d) so ro = Ok dst /\ read_vtt dst = Ok d' /\
+                 vtt_to_plain d' = ptrunc 1000000 (ttml_to_plain d).
+Proof. exact ttml_to_vtt_styled. Qed.
+Print Assumptions C07_ttml_to_vtt_styled.
+Theorem C07_ttml_to_vtt_styled_file : forall data d,
+  read_ttml_bytes2 data = Ok d ->
+  repr_vdoc (tv_norm (conv_ttml_vtt d)) (tv_style_order d) (tv_region_order d) ->
+  exists dst d', convert_ttml_vtt data = Ok dst /\ read_vtt dst = Ok d' /\
+                 vtt_to_plain d' = ptrunc 1000000 (ttml_to_plain d).
+Proof. exact ttml_to_vtt_styled_file. Qed.
+Print Assumptions C07_ttml_to_vtt_styled_file.
+Theorem C07_ttml_to_vtt_styled_written : forall d ind,
+  repr_doc d = true -> indent_ok ind = true ->
+  repr_vdoc (tv_norm (conv_ttml_vtt (written_value d))) (tv_style_order d) (tv_region_order d) ->
+  exists src dst d', write_ttml_bytes ind d = Ok src /\ convert_ttml_vtt src = Ok dst /\ read_vtt dst = Ok d' /\
+                     vtt_to_plain d' = ptrunc 1000000 (ttml_to_plain d).
+Proof. exact ttml_to_vtt_styled_written. Qed.
+Print Assumptions C07_ttml_to_vtt_styled_written.
+(* the normal form is written byte for byte like the converted document *)
+Theorem C07_ttml_to_vtt_norm_bytes : forall d so ro,
+  repr_vdoc (tv_norm (conv_ttml_vtt d)) so ro ->
+  write_vtt (tv_norm (conv_ttml_vtt d)) so ro = write_vtt (conv_ttml_vtt d) so ro.
+Proof. exact (fun d so ro H => tv_norm_bytes _ so ro (conv_flat d) (repr_chains _ so ro H)). Qed.
+Print Assumptions C07_ttml_to_vtt_norm_bytes.
+Example C07_ttml_to_vtt_styled_example :
+  read_ttml_bytes2 ex_tv_src = Ok ex_tv_doc /\
+  convert_ttml_vtt ex_tv_src = Ok ex_tv_dst /\
+  repr_vdoc (tv_norm (conv_ttml_vtt ex_tv_doc)) (tv_style_order ex_tv_doc) (tv_region_order ex_tv_doc) /\
+  (exists d', read_vtt ex_tv_dst = Ok d' /\ vtt_to_plain d' = ptrunc 1000000 (ttml_to_plain ex_tv_doc)).
+Proof. exact ex_tv_all. Qed.
 (* ---- styled sources converted into TTML (Model/ConvTtml.v, Proofs/ConvTtmlProofs.v) ----
    What WriteToTTML sees of the cues the SubRip, WebVTT and SSA readers produce: SubRip - the font colour as tts:color on the
    run's span, nothing else; WebVTT - the regions map as layout and the cue's region, the STYLE entry as an empty style
@@ -424,3 +651,38 @@ Proof. exact ex_styled_to_stl. Qed.
 Example C07_ttx_styled_example_vtt : cues_classless ex_classless_cs = true /\ exists dst, convert_ttx_vtt ex_classless = Ok dst /\
   vtt_dec dst = Ok [ (0%Z, 2000000000%Z, [[72;101;108;108;111;98;108;117;101;119;104;105;116;101]; [103;114;101;101;110]]); (2000000000%Z, 3500000000%Z, [[66;73;71]]) ]%N.
 Proof. split; [exact (proj1 ex_classless_ok) | exact ex_classless_to_vtt]. Qed.
+
+(* ---- CORRECTION to the comment above C07_vtt_to_srt (second audit, item (i)6), and the wider theorem ----
+   The comment says "voices, comments, settings, regions, inline timestamps are fine".  Inline timestamps are NOT: a
+   timestamp splits a line into two untagged runs, conv_vs then has two adjacent unstyled SubRip runs, which repr_item
+   excludes (no_adj).  C07_vtt_to_srt therefore covers exactly the documents whose every line is ONE untagged run (voices,
+   comments, settings, regions are fine).  The theorem below covers the rest: the SubRip writer emits an attribute-less
+   styled run exactly like an unstyled one, so the library's bytes are those of the MERGED conversion conv_vs_m (each line
+   one unstyled run holding the line's text; C07_vtt_to_srt_merged_bytes) provided no run text ends with the byte 0xC2
+   (vs_join_ok: the writer escapes run by run and the no-break space is C2 A0; every valid UTF-8 text satisfies it), and
+   the representability hypothesis is asked of conv_vs_m.  Tags, classes, voices, inline timestamps, settings, regions,
+   comments, STYLE blocks are all covered (C07_vtt_to_srt_styled_example: the worked document of C02, for which conv_vs is
+   not representable). *)
+From Astisub Require Import Proofs.ConvVttSrtStyled.
+Theorem C07_vtt_to_srt_merged_bytes : forall d, vs_join_ok d = true -> write_srt (conv_vs d) = write_srt (conv_vs_m d).
+Proof. exact write_conv_vs_m. Qed.
+Print Assumptions C07_vtt_to_srt_merged_bytes.
+Theorem C07_vtt_to_srt_styled : forall d so ro,
+  repr_vdoc d so ro -> vs_join_ok d = true -> Forall repr_item (conv_vs_m (ndoc d so ro)) ->
+  exists vtt srt l', write_vtt d so ro = Ok vtt /\ convert_vtt_srt vtt = Ok srt /\ read_srt srt = Ok l' /\
+                     map sview l' = map vview_ms (vd_items (ndoc d so ro)) /\
+                     length l' = length (vd_items d).
+Proof. exact vtt_to_srt_styled. Qed.
+Print Assumptions C07_vtt_to_srt_styled.
+Example C07_vtt_to_srt_styled_example :
+  repr_vdoc VttDoc.ex_doc VttDoc.ex_so VttDoc.ex_ro /\ vs_join_ok VttDoc.ex_doc = true /\ Forall repr_item (conv_vs_m (ndoc VttDoc.ex_doc VttDoc.ex_so VttDoc.ex_ro)) /\
+  forallb repr_itemb (conv_vs (ndoc VttDoc.ex_doc VttDoc.ex_so VttDoc.ex_ro)) = false.
+Proof. exact ex_vtt_to_srt_styled_hyps. Qed.
+
+(* ---- CORRECTION to the header of this file (second audit, N14) ----
+   The header ends with "The other format pairs and the CLI are decided on the implementation by the harness ...:
+   correspondence/exploration, not proof."  That sentence is stale: every pair among SubRip, WebVTT, SSA/ASS, EBU STL, TTML
+   (and teletext as a source) is covered by C07_pair / C07_pair_ops / C07_any_source with the C07_*_plain_faithful
+   instances (unstyled content, any operation sequence), the command-line tool by C07_cli, and styled sources by the
+   C07_*_styled theorems of this file (srt->vtt, vtt->srt, ssa<->vtt, ttml->vtt, ttml->ssa, stl / ttml / ssa -> srt, and the
+   pairs of the STL and TTML slices), each tied to the library by a byte comparison on generated styled sources. *)
